@@ -121,6 +121,12 @@ RedProgs ==
   \cup UNION {{<< [k |-> "leaf", h |-> 1, sh |-> <<2, 3>>, v |-> Vec(6, IF f \in {"max", "min"} THEN "D" ELSE "B"), const |-> FALSE, order |-> "F"],
                   [k |-> "op", h |-> 2, f |-> f, a |-> <<Opnd(1)>>, kw |-> kw] >> : kw \in AxisOpts(<<2, 3>>)}
               : f \in {"sum", "prod", "max", "min"}}
+  \* three dimensions, reduced axes that are not one block (first and last), every spelling of the axis tuple
+  \cup {<< Leaf(1, <<2, 3, 2>>, IF f \in {"max", "min"} THEN "D" ELSE "B", FALSE),
+           [k |-> "op", h |-> 2, f |-> f, a |-> <<Opnd(1)>>, kw |-> kw] >> :
+          f \in {"sum", "mean", "prod", "max", "min", "var"},
+          kw \in {[axis |-> <<0, 2>>, axis_tuple |-> TRUE], [axis |-> <<-3, -1>>, axis_tuple |-> TRUE, keepdims |-> TRUE],
+                  [axis |-> <<2, 0>>, axis_tuple |-> TRUE], [axis |-> <<1, 2>>, axis_tuple |-> TRUE], [axis |-> <<0, 1>>, axis_tuple |-> TRUE, keepdims |-> TRUE]}}
   \* prod with one zero and with several zeros per lane
   \cup {<< [k |-> "leaf", h |-> 1, sh |-> <<2, 3>>, v |-> vv, const |-> FALSE],
            [k |-> "op", h |-> 2, f |-> "prod", a |-> <<Opnd(1)>>, kw |-> kw] >> :
